@@ -296,6 +296,10 @@ Definition constant_propagated (k : akind) (v : pyval) : option tensor :=
   | AInt64s, _ => match items_of v with
                   | Some l => match all_some (map int_item l) with Some x => Some (mkT I64 [len x] (PNum (map (wrap 64) x))) | None => None end
                   | None => None end
+  | AStrings, _ => match items_of v with
+                   | Some l => match all_some (map (fun x => match x with PText s => if is_text s then Some s else None | _ => None end) l) with
+                               | Some x => Some (mkT Str [len x] (PStr x)) | None => None end
+                   | None => None end
   | _, _ => None
   end.
 
